@@ -219,6 +219,10 @@ m("C12-j", "C12", "impls/src/lifecycle/seed.rs", "\t\tlet salt: [u8; 8] = thread
 
 m("C03-f", "C03", "libwallet/src/types.rs", "\t\tself.status = OutputStatus::Locked;", "\t\tif let OutputStatus::Unspent = self.status {\n\t\t\tself.status = OutputStatus::Locked\n\t\t}", "C03.R7")
 
+m("C19-g", "C19", "libwallet/src/internal/updater.rs", "\t\t\t\t\t\t\t\t|| tx_entry.tx_type == TxLogEntryType::TxSent\n\t\t\t\t\t\t\t\t|| tx_entry.tx_type == TxLogEntryType::TxReverted)", "\t\t\t\t\t\t\t\t|| tx_entry.tx_type == TxLogEntryType::TxSent)", "C19.R4")
+m("C19-h", "C19", "libwallet/src/internal/updater.rs", "\t\t\t\tf_pk && f_tx_id && f_txs && f_outstanding", "\t\t\t\tf_pk && (f_tx_id || f_txs) && f_outstanding", "C19.R4")
+m("C19-i", "C19", "libwallet/src/internal/updater.rs", "\t\t\t\t\tSome(t) => tx_entry.tx_slate_id == Some(t),\n\t\t\t\t\tNone => true,", "\t\t\t\t\tSome(t) => tx_entry.tx_slate_id == Some(t),\n\t\t\t\t\tNone => tx_entry.tx_slate_id.is_none(),", "C19.R4")
+
 
 def for_property(prop):
     return [x for x in M if x["property"] == prop]
